@@ -591,8 +591,15 @@ func (s *Sim) AddLink(d Deliverable) {
 
 func (s *Sim) AddFaultSource(f func() []Action) { s.faultSrc = append(s.faultSrc, f) }
 func (s *Sim) AddInvariant(f func())            { s.invars = append(s.invars, f) }
-func (s *Sim) OnTeardown(f func())              { s.teardown = append(s.teardown, f) }
-func (s *Sim) SetStateSig(f func() uint64)      { s.stateFn = f }
+
+// OnTeardown registers a hook for the end of the run (hooks run last-registered first).  Goroutines of the code
+// under test may register hooks too (a server started by the scenario), also while the run is already ending.
+func (s *Sim) OnTeardown(f func()) {
+	s.mu.Lock()
+	s.teardown = append(s.teardown, f)
+	s.mu.Unlock()
+}
+func (s *Sim) SetStateSig(f func() uint64) { s.stateFn = f }
 
 func (s *Sim) wait() {
 	raceMaskBegin()
@@ -947,8 +954,17 @@ func (s *Sim) Finish() {
 	// let everything that was released come to rest before connections are
 	// reset and stores closed (badger blocks readers for ever once closed)
 	s.wait()
-	for i := len(s.teardown) - 1; i >= 0; i-- {
-		s.teardown[i]()
+	for {
+		s.mu.Lock()
+		n := len(s.teardown)
+		if n == 0 {
+			s.mu.Unlock()
+			break
+		}
+		f := s.teardown[n-1]
+		s.teardown = s.teardown[:n-1]
+		s.mu.Unlock()
+		f()
 	}
 }
 
